@@ -217,7 +217,8 @@ def explore(run_one, max_schedules=100000, max_preemptions=None):
             return
 
 
-def wrap_yield(sched, obj, names, prefix='', tag=None):
+def wrap_yield(sched, obj, names, prefix='', tag=None, nested=False,
+               atomic=()):
     """Make every *outermost* call of obj.<name> a yield point (on the
     instance): calls the object makes to itself while serving such a call are
     not accesses by the code under test and do not yield again."""
@@ -230,15 +231,21 @@ def wrap_yield(sched, obj, names, prefix='', tag=None):
         def mk(orig=orig, name=name):
             def wrapped(*a, **k):
                 d = getattr(depth, 'n', 0)
-                if d == 0:
+                inside = getattr(depth, 'stack', ())
+                # never yield inside a method that holds a real lock (the
+                # next actor would block on it outside the scheduler)
+                if (d == 0 or nested) and not any(x in atomic
+                                                  for x in inside):
                     lab = prefix + name
                     if tag is not None:
                         lab += ':' + str(tag(name, a, k))
                     sched.yield_point(lab)
                 depth.n = d + 1
+                depth.stack = inside + (name,)
                 try:
                     return orig(*a, **k)
                 finally:
                     depth.n = d
+                    depth.stack = inside
             return wrapped
         setattr(obj, name, mk())
